@@ -241,11 +241,16 @@ def run_case(ctx, case):
     if rng.random() < 0.6:
         spaces = [spaces[0]] * 3          # compatible pool most of the time, so sequences get long
     datas = [wellcond(rng, L, n) for _ in range(3)]
+    def tcont():
+        # the same labels handed over in different containers (a list here, a tuple or a numpy array there)
+        c = int(rng.integers(0, 4))
+        return list(types) if c < 2 else (tuple(types) if c == 2 else np.array(types))
+
     def make(d, s, ident):
         if not ident:
-            return MatrixArray(length=L, rank=n, data=np.array(d), space=s, types=types)
+            return MatrixArray(length=L, rank=n, data=np.array(d), space=s, types=tcont())
         # the shipped subclass, brought to the same content through arithmetic (as PRISM.cost does with I - Omega C)
-        m = IdentityMatrixArray(length=L, rank=n, space=s, types=types)
+        m = IdentityMatrixArray(length=L, rank=n, space=s, types=tcont())
         with MC.paused():
             m *= 0.0
             m += np.array(d)
@@ -378,6 +383,26 @@ def run_case(ctx, case):
                     break
                 if out[q].space != inp[q].space:
                     ctx.violation('ma:inplace-space-differs', 'space flags of in-place/out-of-place sequences differ after %s' % (steps[-1],))
+    # ---- the other read paths: positional getters, per-matrix getter, and the deprecated itercurve (tutorial NB8 still uses it)
+    with MC.paused():
+        m = out[0]
+        D0 = np.array(m.data, copy=True)
+        ctx.hook('getter_probe')
+        import warnings as _w
+        with _w.catch_warnings():
+            _w.simplefilter('ignore')
+            a = [(tuple(ij), tuple(str(x) for x in t), np.array(v)) for ij, t, v in m.itercurve()]
+        b = [(tuple(ij), tuple(str(x) for x in t), np.array(v)) for ij, t, v in m.iterpairs()]
+        if len(a) != len(b) or any(x[0] != y[0] or x[1] != y[1] or not np.array_equal(x[2], y[2], equal_nan=True) for x, y in zip(a, b)):
+            ctx.violation('ma:itercurve-differs-from-iterpairs', 'itercurve() does not yield what iterpairs() yields (rank %d)' % n)
+        want = [(i, j) for i in range(n) for j in range(n) if i <= j]
+        if [x[0] for x in b] != want or any(not np.array_equal(x[2], D0[:, x[0][0], x[0][1]], equal_nan=True) for x in b):
+            ctx.violation('ma:iterpairs-wrong', 'iterpairs() does not visit the upper-triangle pair functions in index order with their data (rank %d)' % n)
+        i, j, kx = int(rng.integers(0, n)), int(rng.integers(0, n)), int(rng.integers(0, L))
+        if not np.array_equal(np.asarray(m.get(i, j)), D0[:, i, j], equal_nan=True) or not np.array_equal(np.asarray(m.getMatrix(kx)), D0[kx], equal_nan=True):
+            ctx.violation('ma:positional-getter-wrong', 'get(%d,%d) / getMatrix(%d) do not return the stored pair function / matrix' % (i, j, kx))
+        if not np.array_equal(np.asarray(m.data), D0, equal_nan=True):
+            ctx.violation('ma:getter-modifies-array', 'iterating / reading a MatrixArray changed its data')
     after = sum(v for k, v in ctx.hooks.items() if k.startswith('ma.'))
     if after - before >= 3:
         ctx.nontrivial([n, L, steps])
